@@ -40,6 +40,9 @@ def pkg_dir(repo, demo):
     return cands[0] if cands else None
 
 
+RACE = []
+
+
 def run_demo(wt, src):
     demos = sorted(glob.glob(os.path.join(src, "*_test.go")))
     mains = [f for f in glob.glob(os.path.join(src, "*.go")) if not f.endswith("_test.go")]
@@ -54,7 +57,7 @@ def run_demo(wt, src):
             placed.append(dst)
         names = re.findall(r"^func (Test\w+)\(", "".join(open(f).read() for f in demos), re.M)
         run = "^(" + "|".join(names) + ")$" if names else "."
-        rc, out = sh(["go", "test", "-vet=off", "-count=1", "-run", run, "./" + os.path.relpath(d, wt)], cwd=wt, timeout=600)
+        rc, out = sh(["go", "test"] + RACE + ["-vet=off", "-count=1", "-run", run, "./" + os.path.relpath(d, wt)], cwd=wt, timeout=600)
         for f in placed:
             os.remove(f)
         return rc == 0, out[-1500:]
@@ -74,6 +77,8 @@ def main():
     tier, props = "quick", None
     while "--tier" in args:
         i = args.index("--tier"); tier = args[i + 1]; del args[i:i + 2]
+    if "--race" in args:
+        args.remove("--race"); RACE.append("-race")
     while "--props" in args:
         i = args.index("--props"); props = args[i + 1].split(","); del args[i:i + 2]
     prop, src, name = args[0], os.path.abspath(args[1]), args[2]
